@@ -324,8 +324,10 @@ def inline_local_closures(fn, counter):
                     and "Mut)" not in str(s["pat"].get("mode"))):
                 continue
             init = s["init"]
-            while (init.get("k") == "blk" and not init["b"]["stmts"] and init["b"]["tail"] is not None) or (init.get("k") == "ref" and isinstance(init.get("x"), dict)):
-                init = init["b"]["tail"] if init.get("k") == "blk" else init["x"]      # a reference to a callable is called like the callable
+            while ((init.get("k") == "blk" and not init["b"]["stmts"] and init["b"]["tail"] is not None) or (init.get("k") == "ref" and isinstance(init.get("x"), dict))
+                   or (init.get("k") == "call" and str(init.get("callee", "")).startswith(("std::boxed::Box::<T>::new", "alloc::boxed::Box::<T>::new")) and len(init.get("args") or []) == 1)):
+                # a reference to / a box around a callable is called like the callable
+                init = init["b"]["tail"] if init.get("k") == "blk" else (init["x"] if init.get("k") == "ref" else init["args"][0])
             if init.get("k") == "path" and isinstance(init.get("def"), str) and "::" in init["def"]:
                 # `let f = f32::tanh; .. f(a) ..`  ->  `.. a.tanh() ..`   (a function item bound to a local and only ever called)
                 hid = s["pat"]["hid"]
@@ -342,6 +344,65 @@ def inline_local_closures(fn, counter):
                             x["f"] = copy.deepcopy(init)
                             x["callee"] = d
                     b["stmts"] = [t for t in b["stmts"] if t is not s]
+                    n += 1
+                continue
+            if init.get("k") == "match" and _pure_access(init["scrut"]) and all(a.get("guard") is None for a in init["arms"]):
+                # `let f = match S { A => Box::new(|p| b1), B => Box::new(|p| b2), _ => panic }; .. f(a) ..`  ->  `.. match S { A => { let p = a; b1 }, .. } ..`
+                # (S a side-effect free place that nothing in this function writes: the arm chosen at the call is the arm chosen at the binding)
+                def unbox(e):
+                    e = _unblk(e)
+                    while e is not None and e.get("k") == "call" and str(e.get("callee", "")).startswith(("std::boxed::Box::<T>::new", "alloc::boxed::Box::<T>::new")) and len(e.get("args") or []) == 1:
+                        e = _unblk(e["args"][0])
+                    return e
+                from . import e4 as _e4m
+                arms_cl = []
+                okm = True
+                for a in init["arms"]:
+                    b_ = unbox(a["body"])
+                    if b_ is not None and b_.get("k") == "closure" and not any(y.get("k") == "ret" for y in _walk(b_["body"])):
+                        arms_cl.append((a, b_))
+                    elif b_ is not None and (b_.get("k") in ("call", "mcall") and "panic" in str(b_.get("callee", "")) or b_.get("mac") in ("panic", "unimplemented", "unreachable", "todo")):
+                        arms_cl.append((a, None))
+                    else:
+                        okm = False
+                hid = s["pat"]["hid"]
+                uses = [x for x in _walk(fn["body"]) if x.get("k") == "local" and x.get("hid") == hid]
+                callsites = [x for x in _walk(fn["body"]) if x.get("k") == "call" and isinstance(x.get("f"), dict) and x["f"].get("k") == "local" and x["f"].get("hid") == hid]
+                if okm and any(c_ is not None for _, c_ in arms_cl) and uses and len(uses) == len(callsites) and _never_written(fn, [r_ for r_ in _place_roots(init["scrut"]) if r_[1] is not None]) \
+                        and not (set(h_ for (h_, f_) in _place_roots(init["scrut"]) if f_ is None) & _assigned_locals([fn["body"]])):
+                    okx = True
+
+                    def rw(x):
+                        nonlocal okx
+                        if isinstance(x, list):
+                            return [rw(v) for v in x]
+                        if not isinstance(x, dict):
+                            return x
+                        for k_, v in list(x.items()):
+                            if isinstance(v, (dict, list)):
+                                x[k_] = rw(v)
+                        if x.get("k") == "call" and isinstance(x.get("f"), dict) and x["f"].get("k") == "local" and x["f"].get("hid") == hid:
+                            new_arms = []
+                            for (a, c_) in arms_cl:
+                                if c_ is None:
+                                    new_arms.append(copy.deepcopy(a))
+                                    continue
+                                counter[0] += 1
+                                e = _inl._expand(copy.deepcopy(x), {"params": c_["params"], "body": c_["body"], "path": "closure:" + str(s["pat"].get("name"))}, 4000 + counter[0])
+                                if e is None:
+                                    okx = False
+                                    return x
+                                new_arms.append({**copy.deepcopy({k2: v2 for k2, v2 in a.items() if k2 != "body"}), "body": e})
+                            return {"k": "match", "scrut": copy.deepcopy(init["scrut"]), "src": "Normal", "arms": new_arms, "line": x.get("line"), "from_closure_match": True, **({"t": x["t"]} if "t" in x else {})}
+                        return x
+                    saved = copy.deepcopy(fn["body"])
+                    fn["body"] = rw(fn["body"])
+                    if not okx:
+                        fn["body"] = saved
+                        return n
+                    for b2 in _walk(fn["body"]):
+                        if b2.get("k") == "block":
+                            b2["stmts"] = [t for t in b2["stmts"] if not (t.get("k") == "let" and t.get("pat", {}).get("k") == "bind" and t["pat"].get("hid") == hid)]
                     n += 1
                 continue
             if init.get("k") != "closure":
@@ -456,7 +517,7 @@ def split_tuple_values(fn):
             bare_ = {h for (h, f) in roots_ if f is None} - {h for (h, f) in roots_ if f is not None}
             if not _never_written(fn, [r_ for r_ in roots_ if r_[1] is not None]):
                 continue
-            if any(y.get("k") in ("assign", "assignop") and _root(y["l"]) is not None and _root(y["l"]).get("k") == "local" and _root(y["l"])["hid"] in bare_ for y in _walk(fn["body"])):
+            if bare_ & _assigned_locals([fn["body"]]):
                 continue
             hid = s["pat"]["hid"]
             uses = [x for x in _walk(fn["body"]) if x.get("k") == "local" and x.get("hid") == hid]
@@ -857,6 +918,85 @@ def _fillup(blkn, stmts, items, b, lp, iff, vec, end, types):
         blkn["tail"] = None
         stmts.append(newlp)
     return True
+
+
+def deref_of_ref(fn):
+    """D43  `*&X` / `*&mut X`  ->  `X`   (what a by-reference parameter substituted by its argument leaves behind)"""
+    n = 0
+
+    def rw(x):
+        nonlocal n
+        if isinstance(x, list):
+            return [rw(v) for v in x]
+        if not isinstance(x, dict):
+            return x
+        for k_, v in list(x.items()):
+            if isinstance(v, (dict, list)):
+                x[k_] = rw(v)
+        if x.get("k") == "un" and x.get("op") == "Deref":
+            i0 = x["x"]
+            while isinstance(i0, dict) and i0.get("k") == "blk" and i0.get("lbl") is None and not i0["b"]["stmts"] and i0["b"].get("tail") is not None:
+                i0 = i0["b"]["tail"]
+            if isinstance(i0, dict) and i0.get("k") == "ref" and isinstance(i0.get("x"), dict):
+                n += 1
+                return i0["x"]
+        return x
+    if fn.get("body") is not None:
+        fn["body"] = rw(fn["body"])
+    return n
+
+
+def loop_exit_tests(fn):
+    """D42  `loop { if C { break; } rest.. }`  ->  `while !C { rest.. }`;  for a counter `i` that starts at the literal 0 and is incremented by 1 at the end of
+    the body, the exit test `i == n` is `i >= n` (0 <= n for an unsigned n, and i reaches every value up to n)."""
+    n = 0
+    for blkn in list(_walk(fn.get("body"))):
+        if blkn.get("k") != "block":
+            continue
+        items = list(blkn["stmts"]) + ([blkn["tail"]] if blkn.get("tail") is not None else [])
+        for b, lp0 in enumerate(items):
+            lp = _unblk(lp0)
+            if lp is None or lp.get("k") != "loop" or lp.get("src") != "Loop":
+                continue
+            bd = lp["body"]
+            bd = bd["b"] if bd.get("k") == "blk" else bd
+            if bd.get("k") != "block" or not bd["stmts"]:
+                continue
+            first = _unblk(bd["stmts"][0])
+            if first is None or first.get("k") != "if" or first.get("el") is not None:
+                continue
+            c = _unblk(first["c"])
+            if c is None or c.get("k") != "bin" or c["op"] not in _NEG:
+                continue
+            d_ = _div_stmt(first["th"])
+            lid = lp.get("loop_id")
+            if d_ is None or d_.get("k") != "break" or d_.get("label") not in (lid, None):
+                continue
+            rest = bd["stmts"][1:] + ([bd["tail"]] if bd.get("tail") is not None else [])
+            if any(y.get("k") == "break" and y.get("label") == lid and y.get("v") is not None for x in rest for y in _walk(x)):
+                continue
+            op = _NEG[c["op"]]
+            if c["op"] == "Eq":
+                l_, last = _unblk(c["l"]), (_unblk(rest[-1]) if rest else None)
+                prev = items[b - 1] if b > 0 else None
+                counted = (l_ is not None and l_.get("k") == "local" and last is not None and last.get("k") == "assignop" and str(last.get("op", "")).startswith("Add")
+                           and _unblk(last["l"]).get("k") == "local" and _unblk(last["l"])["hid"] == l_["hid"] and _unblk(last["r"]).get("k") == "lit"
+                           and str(_unblk(last["r"]).get("v")).replace("usize", "").rstrip("_") == "1"
+                           and prev is not None and prev.get("k") == "let" and prev["pat"].get("k") == "bind" and prev["pat"]["hid"] == l_["hid"]
+                           and _unblk(prev.get("init")) is not None and _unblk(prev["init"]).get("k") == "lit" and str(_unblk(prev["init"]).get("v")).replace("usize", "").rstrip("_") == "0"
+                           and not any(y.get("k") in ("assign", "assignop") and _unblk(y["l"]).get("k") == "local" and _unblk(y["l"])["hid"] == l_["hid"] for x in rest[:-1] for y in _walk(x))
+                           and not any(y.get("k") == "continue" and y.get("label") in (lid, None) for x in rest for y in _walk(x)))
+                if not counted:
+                    continue
+                op = "Lt"
+            line = lp.get("line")
+            cond = {**c, "op": op}
+            body_blk = {"k": "blk", "b": {"k": "block", "stmts": rest, "tail": None}, "line": line}
+            brk = {"k": "blk", "b": {"k": "block", "stmts": [{"k": "break", "label": lid, "v": None, "line": line}], "tail": None}, "line": line}
+            lp["src"] = "While"
+            lp["body"] = {"k": "blk", "b": {"k": "block", "stmts": [], "tail": {"k": "if", "c": cond, "th": body_blk, "el": brk, "line": line}}, "line": line}
+            n += 1
+    return n
 
 
 def while_to_for(fn, types):
@@ -1298,7 +1438,7 @@ def _assigned_locals(stmts):
             elif y.get("k") == "ref" and y.get("mut"):
                 tgt = y["x"]
             if tgt is not None:
-                r = _root(tgt)
+                r = _root_of_place(tgt)
                 if r is not None and r.get("k") == "local":
                     out.add(r["hid"])
     return out
@@ -1769,8 +1909,16 @@ def mut_ref_aliases(fn):
         while i < len(b["stmts"]):
             s = b["stmts"][i]
             init = _unblk(s.get("init")) if s.get("k") == "let" else None
+            # `let a = v[i];` where nothing in this function writes v (an immutable binding): a names that element while i keeps its value
+            elem_copy = (s.get("k") == "let" and not s.get("els") and s["pat"].get("k") == "bind" and not s["pat"].get("sub") and init is not None
+                         and init.get("k") == "index" and str(s["pat"].get("mode")).endswith("No, Not)") and _root_of_place(init) is not None
+                         and s["pat"].get("t") is not None and _TYPES[0] and s["pat"]["t"] < len(_TYPES[0]) and _TYPES[0][s["pat"]["t"]].startswith("&")
+                         and _never_written(fn, [(_root_of_place(init)["hid"], None)])
+                         and _root_of_place(init)["hid"] not in _assigned_locals([fn["body"]]))
+            if elem_copy:
+                init = {"k": "ref", "mut": False, "x": init}
             if not (s.get("k") == "let" and not s.get("els") and s["pat"].get("k") == "bind" and not s["pat"].get("sub") and init is not None
-                    and init.get("k") == "ref" and init.get("mut") and "Ref" not in str(s["pat"].get("mode"))):
+                    and init.get("k") == "ref" and (init.get("mut") or elem_copy) and "Ref" not in str(s["pat"].get("mode"))):
                 i += 1
                 continue
             place = _unblk(init["x"])
@@ -3698,6 +3846,8 @@ def run(facts):
         counts["match_guards"] = counts.get("match_guards", 0) + match_guards(fn)
         counts["bool_matches"] = counts.get("bool_matches", 0) + bool_match_to_if(fn)
         counts["loop_break_values"] = counts.get("loop_break_values", 0) + loop_break_value(fn)
+        counts["deref_of_ref"] = counts.get("deref_of_ref", 0) + deref_of_ref(fn)
+        counts["loop_exit_tests"] = counts.get("loop_exit_tests", 0) + loop_exit_tests(fn)
         counts["while_loops"] = counts.get("while_loops", 0) + while_to_for(fn, facts["types"])
         counts["while_let_next"] = counts.get("while_let_next", 0) + while_let_next(fn)
         _TYPES[0] = facts.get("types")
